@@ -166,5 +166,11 @@ CLAIMS['C38'] = {
   'note': _TB + 'Two symbolic handlers stand for any number; trigger conditions of the device handlers and the input-queue plumbing ("lost while OFF") are not covered.',
 }
 
+CLAIMS['C20'] = {
+  'text': 'Proof: UserFunction.evaluate on a real DataSegment/Scalars - on normal and on exceptional exit every parameter variable has byte for byte the value it had before the call (zero if new), other variables are untouched, the recursion flag and code stream position are restored, temporaries released; '
+          'during evaluation the parameters hold the converted arguments; a re-entrant call raises Out of memory. Parameter lists () (X) (X,Y%) (A#,A#) with symbolic values.',
+  'note': _TB + 'The function body (ExpressionParser.parse) is a stand-in that overwrites the parameters in place and returns or raises; string parameters are not covered.',
+}
+
 NOT_APPLICABLE = {
 }
